@@ -70,7 +70,7 @@ class NixSourceCode:
         self.source_path = source_path
 
     @classmethod
-    def from_cst(cls, node: Node) -> NixSourceCode:
+    def from_cst(cls, node: Node, raw_source: bytes | None = None) -> NixSourceCode:
         """Build a source wrapper that keeps trivia for round-trip fidelity."""
         if node.text is None:
             raise ValueError("Missing source text")
@@ -92,7 +92,9 @@ class NixSourceCode:
 
         if contains_error:
             # Preserve the raw text so round-tripping doesn't lose information.
-            raw_text = source_bytes.decode()
+            # The root node starts at the first token, so its text lacks the
+            # file's leading whitespace; pass through the real input when known.
+            raw_text = (raw_source if raw_source is not None else source_bytes).decode()
             return cls(
                 node=node,
                 expressions=[RawExpression(text=raw_text)],
